@@ -206,7 +206,9 @@ def _extend(cls, comp):
                                       granularity=comp.bus.data_width, features=sorted(feat & {"err", "rty"}), path=("late",))
             return ("ok", comp.add(intr))
         if cls == "mux":
-            return ("ok", comp.bus.memory_map.add_resource(MockReg(1, "rw"), name=("late_reg",), size=1))
+            # three more registers of 1, 2 and 3 words, packed (so they share shadow chunks with their neighbours)
+            dw = comp.bus.data_width
+            return ("ok", [comp.bus.memory_map.add_resource(MockReg(k * dw, "rw"), name=(f"late_reg{k}",), size=k) for k in (1, 2, 3)])
     except (ValueError, TypeError) as e:
         return ("refused", type(e).__name__)
     return None
@@ -225,16 +227,54 @@ def _still_extensible(spec, built, stats, cls):
                         f"never-elaborated twin built from the same parameters gives {b}")
     stats.label("twin_add_compared")
     if a and a[0] == "ok":
-        # and the extended component still elaborates
-        try:
-            rtlil.convert(built.comp, ports=built.ports)
-        except Exception as e:
-            if deliberate_refusal(e):
-                return
-            if classify_exception(e) is None:
-                raise
-            raise Violation(f"C19/elab-after-add/{_site(e)}", f"{cls}: elaboration after a further add() failed: "
-                            f"{type(e).__name__}: {str(e)[:200]}")
+        # and the extended component still elaborates - to the same hardware as the extended twin,
+        # which is elaborated for the first time now (or both are refused alike)
+        outs = []
+        for who, x in (("elaborated instance", built), ("never-elaborated twin", twin)):
+            try:
+                outs.append(("ok", rtlil.convert(x.comp, ports=x.ports)))
+            except Exception as e:
+                if deliberate_refusal(e):
+                    outs.append(("refused", type(e).__name__))
+                    continue
+                if classify_exception(e) is None:
+                    raise
+                raise Violation(f"C19/elab-after-add/{_site(e)}", f"{cls}: elaboration of the {who} after a further add() "
+                                f"failed: {type(e).__name__}: {str(e)[:200]}")
+        if outs[0] != outs[1]:
+            raise Violation(f"C19/purity/elab-after-add-differs/{cls}", f"after further add() calls the instance that had "
+                            f"been elaborated before gives {outs[0][0]} ({outs[0][1][:80] if outs[0][0] == 'refused' else len(outs[0][1])}), "
+                            f"a never-elaborated twin in the same state gives {outs[1][0]} "
+                            f"({outs[1][1][:80] if outs[1][0] == 'refused' else len(outs[1][1])})")
+        stats.label("extended_twin_hardware_compared")
+
+
+def _two_in_one_design(spec, built, stats, cls, text):
+    """A second instance built from the same parameters: elaborates to the same hardware, and both
+    fit into one design (instances own their signals)."""
+    from amaranth import Module
+    twin = components.build(spec)
+    try:
+        t2 = rtlil.convert(twin.comp, ports=twin.ports)
+    except Exception as e:
+        if classify_exception(e) is None:
+            raise
+        raise Violation(f"C19/elab-second-instance/{_site(e)}", f"{cls}: a second instance built from the same parameters "
+                        f"failed to elaborate: {type(e).__name__}: {str(e)[:200]}")
+    if t2 != text:
+        raise Violation(f"C19/repeatability/second-instance/{cls}", f"a second instance built from the same parameters "
+                        f"elaborates to different RTLIL (lengths {len(text)} vs {len(t2)})")
+    m = Module()
+    m.submodules.first = built.comp
+    m.submodules.second = twin.comp
+    try:
+        rtlil.convert(m, ports=list(built.ports) + list(twin.ports))
+    except Exception as e:
+        if classify_exception(e) is None:
+            raise
+        raise Violation(f"C19/elab-two-instances/{_site(e)}", f"{cls}: a design holding two instances built from the same "
+                        f"parameters failed to elaborate: {type(e).__name__}: {str(e)[:300]}")
+    stats.label("two_instances_in_one_design")
 
 
 def _check(spec, stats, cls):
@@ -296,6 +336,7 @@ def _check(spec, stats, cls):
                         f"than #1 (lengths {[len(t) for t in texts]})")
     stats.label("elaborated_3x")
     stats.label("ok:" + cls)
+    _two_in_one_design(spec, built, stats, cls, texts[0])
     _still_extensible(spec, built, stats, cls)
     stats.add("rtlil_bytes", len(texts[0]))
     stats.nontrivial = built.subobjects >= 2
